@@ -1011,7 +1011,9 @@ class QuantityMeta(ClassWithDefinitionMeta):
         define_as: Optional[QuantityClsDefT] = kwds.pop('define_as', None)
         # reference unit
         if define_as is not None:
-            assert define_as, "Given definition is not valid."  # empty Term
+            # empty Term, or a Term that reduces to the empty Term
+            assert define_as and define_as.normalized(), \
+                "Given definition is not valid."
             try:
                 ref_unit_def = UnitDefT(_iter_ref_units(define_as))
             except TypeError:
